@@ -422,12 +422,12 @@ type c11Read struct {
 
 // c11Opts: the choices a case makes for itself (a hash of its line)
 type c11Opts struct {
-	way        int  // 0 fresh Runtime + CreateHttpRequest | 1 the long-lived Runtime + CreateHttpRequest | 2 the long-lived Runtime + Submit
-	consumes   int  // 0 ConsumesMediaTypes = [mt] | 1 none (Runtime.DefaultMediaType = mt) | 2 ["", mt, another]
+	way         int  // 0 fresh Runtime + CreateHttpRequest | 1 the long-lived Runtime + CreateHttpRequest | 2 the long-lived Runtime + Submit
+	consumes    int  // 0 ConsumesMediaTypes = [mt] | 1 none (Runtime.DefaultMediaType = mt) | 2 ["", mt, another]
 	defaultAuth bool // the auth writer is the Runtime's DefaultAuthentication, not the operation's AuthInfo
-	filesFirst bool // the operation sets files, then form fields, then the body
-	twice      bool // … and sets each of them to something else first
-	impl       int  // which Go type stands behind the payload / the uploads
+	filesFirst  bool // the operation sets files, then form fields, then the body
+	twice       bool // … and sets each of them to something else first
+	impl        int  // which Go type stands behind the payload / the uploads
 }
 
 func c11OptsOf(in []string) c11Opts {
